@@ -420,6 +420,28 @@ pub fn p2() -> Vec<ProgCase> {
     out
 }
 
+/// P2 over the whole atom alphabet (thorough tier): every ordered pair of atoms that need neither
+/// locals, the Merkle store nor a kernel, at top level; the pairs of the reduced alphabet are in p2()
+pub fn p2_full() -> Vec<ProgCase> {
+    let reduced: std::collections::BTreeSet<String> = p2().into_iter().map(|c| c.name).collect();
+    let all: Vec<Atom> = atoms().into_iter().filter(|a| !a.locals && !a.merkle && !a.kernel_only).collect();
+    let mut out = vec![];
+    for a in &all {
+        for b in &all {
+            let name = format!("{}+{}/top", a.name, b.name);
+            if reduced.contains(&name) {
+                continue;
+            }
+            let mut advice = a.advice.clone();
+            advice.extend(b.advice.clone());
+            let mut tags = a.tags.clone();
+            tags.extend(b.tags.clone());
+            out.push(ProgCase { name, src: format!("begin {} {} end", a.code, b.code), kernel: None, stack: input_regime(2), advice, merkle_leaves: vec![], tags });
+        }
+    }
+    out
+}
+
 /// Pcore: a small family in which every frame, every regime and every component tag occurs
 pub fn pcore() -> Vec<ProgCase> {
     let all = p1(false);
